@@ -490,6 +490,8 @@ def analyse_copy_rewrite(P):
             elif dot and d.get('result-empty') is None:
                 if pushes:
                     out.append(('copy', f'for {what} the EMPTY segment is pushed without testing that the normalised copy is not empty'))
+                else:
+                    out.append(('copy', f'for {what} nothing is pushed after normalize, whether or not the normalised copy is empty (RFC 3986 5.2.4 leaves a trailing "/" after a final dot segment)'))
             elif pushes:
                 out.append(('copy', f'for {what}{" (normalised copy empty)" if dot else ""} the operations after normalize are {pushes} (none expected)'))
         return out[:2]
